@@ -139,6 +139,10 @@ def mutator_task(m, present):
         missing = [p for p in present if p not in props]
         c.oblige("post", f"the lookups {missing} are still offered (as cached properties)", T.const(not missing), assume_after=False)
         deps = {p: deps_of(interp, K, p)[0] for p in props}
+        for p_, d_ in deps.items():
+            ext = sorted(x for x in d_ if x.startswith("element-attr:"))
+            c.oblige("post", f"the cached lookup {p_} is computed from the graph only, not from attributes of the elements that can change without any construction call (reads {ext})",
+                     T.const(not ext), assume_after=False)
         graph = net.attrs["_graph"]
         held = [p for p in present if p in props]
         if set(present) >= set(CACHED):  # "everything cached": includes lookups added since
@@ -233,7 +237,7 @@ def mutator_task(m, present):
                 c.oblige("post", f"{m} on a node that may be new adds it with attribute {key!r} = the given element (writing into the attribute dict of a missing node is not possible)",
                          T.const(by_add), assume_after=False)
 
-    return Task(f"{NETQ}:Network.{m}<{label}>", run, props=("C08", "C09", "C02", "C04", "C06", "C07", "C19"), func=f"{NETQ}:Network.{m}", config=label)
+    return Task(f"{NETQ}:Network.{m}<{label}>", run, props=("C08", "C09", "C02", "C04", "C06", "C07", "C19") + (("C14", "C01") if not present else ()), func=f"{NETQ}:Network.{m}", config=label)
 
 
 def lists_of_wrappers(interp):
